@@ -265,3 +265,80 @@ def chinese(n, ja=False):
 
 def japanese(n):
     return chinese(n, ja=True)
+
+
+# ---------------------------------------------------------------- Portuguese (below 1000 and round numbers)
+PT_ONES = ['zero', 'um', 'dois', 'três', 'quatro', 'cinco', 'seis', 'sete', 'oito', 'nove', 'dez', 'onze', 'doze', 'treze', 'catorze',
+           'quinze', 'dezesseis', 'dezessete', 'dezoito', 'dezenove']
+PT_TENS = ['', '', 'vinte', 'trinta', 'quarenta', 'cinquenta', 'sessenta', 'setenta', 'oitenta', 'noventa']
+PT_HUND = ['', 'cento', 'duzentos', 'trezentos', 'quatrocentos', 'quinhentos', 'seiscentos', 'setecentos', 'oitocentos', 'novecentos']
+
+
+def portuguese(n):
+    if n == 0:
+        return 'zero'
+    if n == 100:
+        return 'cem'
+    if n < 1000:
+        parts = []
+        h, r = divmod(n, 100)
+        if h:
+            parts.append(PT_HUND[h])
+        if r:
+            if r < 20:
+                parts.append(PT_ONES[r])
+            else:
+                t, o = divmod(r, 10)
+                parts.append(PT_TENS[t] + (' e ' + PT_ONES[o] if o else ''))
+        return ' e '.join(parts)
+    if n % 1000 == 0 and n < 10 ** 6:
+        th = n // 1000
+        return 'mil' if th == 1 else portuguese(th) + ' mil'
+    if n == 10 ** 6:
+        return 'um milhão'
+    if n % 10 ** 6 == 0 and n < 10 ** 9:
+        return portuguese(n // 10 ** 6) + ' milhões'
+    raise ValueError('outside the encoded Portuguese range: %d' % n)
+
+
+# ---------------------------------------------------------------- Italian / Dutch (below 100)
+IT_ONES = ['zero', 'uno', 'due', 'tre', 'quattro', 'cinque', 'sei', 'sette', 'otto', 'nove', 'dieci', 'undici', 'dodici', 'tredici',
+           'quattordici', 'quindici', 'sedici', 'diciassette', 'diciotto', 'diciannove']
+IT_TENS = ['', '', 'venti', 'trenta', 'quaranta', 'cinquanta', 'sessanta', 'settanta', 'ottanta', 'novanta']
+
+
+def italian(n):
+    if n < 20:
+        return IT_ONES[n]
+    if n < 100:
+        t, o = divmod(n, 10)
+        if not o:
+            return IT_TENS[t]
+        stem = IT_TENS[t][:-1] if o in (1, 8) else IT_TENS[t]
+        return stem + ('tré' if o == 3 else IT_ONES[o])
+    if n == 100:
+        return 'cento'
+    if n == 1000:
+        return 'mille'
+    raise ValueError('outside the encoded Italian range: %d' % n)
+
+
+NL_ONES = ['nul', 'een', 'twee', 'drie', 'vier', 'vijf', 'zes', 'zeven', 'acht', 'negen', 'tien', 'elf', 'twaalf', 'dertien', 'veertien',
+           'vijftien', 'zestien', 'zeventien', 'achttien', 'negentien']
+NL_TENS = ['', '', 'twintig', 'dertig', 'veertig', 'vijftig', 'zestig', 'zeventig', 'tachtig', 'negentig']
+
+
+def dutch(n):
+    if n < 20:
+        return NL_ONES[n]
+    if n < 100:
+        t, o = divmod(n, 10)
+        if not o:
+            return NL_TENS[t]
+        link = 'ën' if NL_ONES[o].endswith('e') else 'en'
+        return NL_ONES[o] + link + NL_TENS[t]
+    if n == 100:
+        return 'honderd'
+    if n == 1000:
+        return 'duizend'
+    raise ValueError('outside the encoded Dutch range: %d' % n)
